@@ -42,7 +42,8 @@ static struct cstl_hash T[MAXT];
 static struct elem *LIVE[MAXT][MAXE];
 static int nlive[MAXT];
 static int ready[MAXT];
-static int tcls[MAXT];            /* which embedded node the table object currently uses */
+static int tcls[MAXT];
+static int use_macro;             /* tables are made with CSTL_HASH_INITIALIZER instead of cstl_hash_init */            /* which embedded node the table object currently uses */
 
 /* ---- model of the requested geometry (C19) ---- */
 struct geo { size_t n; int f; };                /* f: function id, NF = unlogged cstl_hash_mul */
@@ -113,7 +114,12 @@ static void st_create(int scope)
     for (i = 0; i < npool; i++) pool[i] = new_elem(i);
     for (i = 0; i < ntab; i++) {
         tcls[i] = i & 1;
-        cstl_hash_init(&T[i], offsetof(struct elem, node) + tcls[i] * sizeof(struct cstl_hash_node));
+        /* both documented ways of making a table: cstl_hash_init and the static initialiser macro */
+        if (use_macro) {
+            if (tcls[i]) T[i] = (struct cstl_hash)CSTL_HASH_INITIALIZER(struct elem, node[1]);
+            else T[i] = (struct cstl_hash)CSTL_HASH_INITIALIZER(struct elem, node[0]);
+            VRT_COUNT("tables.made-with-initializer-macro");
+        } else cstl_hash_init(&T[i], offsetof(struct elem, node) + tcls[i] * sizeof(struct cstl_hash_node));
         nlive[i] = 0; ready[i] = 0; pending_possible[i] = 0;
         inforce[i].n = 0; inforce[i].f = -1; keyed_since[i] = 0; sweep_len[i] = 0;
     }
@@ -799,6 +805,7 @@ static void run_closure(int ci)
     vrt_case_note("closure tables=%d keys=%d pool=%d buckets<=%d funcs=f%d,f%d alphabet=%d mode=%s",
                   s->nt, s->nk, s->np, s->maxb, s->f0, s->f1, n, vrt_mode);
     nprobe_per_table = mode == M_ENUM ? 7 : 1;
+    use_macro = ci & 1;
     model.nprobes = mode == M_INCR ? 0 : nprobe_per_table * s->nt;
     resized_while_pending = 0;
     vex_closure(&model, SCOPE(s->nt, s->nk, s->np), al, n, s->max_states, 200, &r);
@@ -822,6 +829,7 @@ static void run_random(uint64_t idx)
     maxb = (idx % 5 == 0) ? 64 : 9;
     nops = under_memcheck() ? 600 : vrt_thorough ? 8000 : 2500;
     vrt_case_note("random tables=%d keys=%d pool=%d buckets<=%d ops=%d mode=%s", nt, nk, np, maxb, nops, vrt_mode);
+    use_macro = idx & 1;
     st_create(SCOPE(nt, nk, np));
     nprobe_per_table = mode == M_ENUM ? 7 : 1;
     for (i = 0; i < nops; i++) {
